@@ -105,12 +105,9 @@ Proof.
   { rewrite <- HO, EP, order_of_app, app_length, order_of_cons, app_length. rewrite (singles_order_length _ HbS). lia. }
   assert (Hsl : s <= length cs') by (apply Nat.lt_le_incl, nth_error_Some; rewrite Hcell; discriminate).
   unfold expand_value in HSp.
-  destruct (expand_loop (n - s) g cs' n m cb fl v s) as [|v'|v' s'] eqn:EE; [discriminate| |discriminate].
+  destruct (expand_loop (n - s) g cs' n m cb fl v s) as [|v' s'|v' s'] eqn:EE; [discriminate| |discriminate].
   destruct (expand_loop_worse g n m cs' cb fl ltac:(rewrite <- Hcs; exact HN') ltac:(rewrite <- Hcs; exact HO')
-              (n - s) s v v' ltac:(lia) Hsl HPS ltac:(rewrite HG; exact Hv) EE) as (j' & A & B & C & D & E).
-  pose proof (expand_loop_spec g n m cs' cb fl ltac:(rewrite <- Hcs; exact HN') ltac:(rewrite <- Hcs; exact HO')
-                (n - s) s v ltac:(lia) Hsl HPS ltac:(rewrite HG; exact Hv)) as HE.
-  rewrite EE in HE. destruct HE as (junk & _ & _ & (_ & HLt & _)).
+              (n - s) s v v' s' ltac:(lia) Hsl HPS ltac:(rewrite HG; exact Hv) EE) as (j' & A & B & C & D & E & _ & (_ & HLt & _)).
   assert (Hnd : NoDup (order_of P)) by (apply (Permutation_NoDup (Permutation_sym HPm)), seq_NoDup).
   assert (Hcnd : NoDup (cverts c)).
   { rewrite EP, order_of_app, order_of_cons in Hnd. apply NoDup_app_r in Hnd. apply NoDup_app_l in Hnd. exact Hnd. }
@@ -128,15 +125,13 @@ Lemma deage_sv_clean : forall b child P value spl cb fl, cinv g n b child value 
   Forall2 same_cell (firstn b P) (firstn b child) -> b < spl ->
   deage_sv b spl value = (b, good P b).
 Proof.
-  intros b child P value spl cb fl (junk & Hv & HP & HJ & Hb & HD) HF Hlt.
+  intros b child P value spl cb fl (Hv & HP & Hb & HD) HF Hlt.
   pose proof (good_prefix g n b P child HF) as HG.
   unfold deage_sv. apply Nat.ltb_lt in Hlt. rewrite Hlt. apply Nat.ltb_lt in Hlt. f_equal.
-  rewrite Hv, (good_split g n child b spl) by lia. rewrite <- app_assoc, HG.
+  rewrite Hv, (good_split g n child b spl) by lia. rewrite <- HG.
   apply strip_ge_app.
   - apply Forall_forall. intros x Hx. eapply good_lt. exact Hx.
-  - apply Forall_app. split.
-    + apply Forall_forall. intros x Hx. eapply ents_ge. exact Hx.
-    + eapply Forall_impl; [|exact HJ]. intros x Hx. simpl in Hx. pose proof (tri_mono b spl ltac:(lia)). lia.
+  - apply Forall_forall. intros x Hx. eapply ents_ge. exact Hx.
 Qed.
 
 End CutW.
